@@ -267,9 +267,23 @@ func (c *clusterT) close() {
 			}
 		}(n)
 	}
-	wg.Wait()
+	// Store.Close(wait=true) has been seen to hang for ever in raft's
+	// waitShutdown (leader's pipelineReplicate blocked in netPipeline.AppendEntries
+	// while its decodeResponses blocks on doneCh after pipelineDecode has gone:
+	// 2 of ~400 cluster lifecycles on a loaded machine). That is not C20's
+	// subject; do not let it turn the check into a timeout: give up after 60 s
+	// and leave the (network-less) remains behind.
+	done := make(chan struct{})
+	go func() { wg.Wait(); close(done) }()
+	select {
+	case <-done:
+	case <-time.After(60 * time.Second):
+		closeHangs.Add(1)
+	}
 	c.nw.Close()
 }
+
+var closeHangs atomic.Int64
 
 func formCluster(dir string, open [3]bool) (*clusterT, error) {
 	c := &clusterT{nw: vnet.New()}
@@ -764,6 +778,9 @@ func TestVerif_C20_Live(t *testing.T) {
 			hist = append(hist, is)
 		}
 		rec.Case(sentToFollower, canon)
+		if n := closeHangs.Load(); n > 0 {
+			rec.Extra("store_close_hangs_abandoned", n)
+		}
 		rec.Sample(canon)
 
 		// ---- convergence, then the cluster-wide row oracle ----
